@@ -28,6 +28,12 @@ def _nested(tier):
     L = lambda v: ("lit", v)  # noqa: E731
     preds += [("gt", L(1), L(2)), ("lt", L("$k1"), L(0)), ("inrange", L(2), 5, 9, 1), ("not", ("le", L(1), L(2))),
               ("and", ("gt", L(1), L(2)), K), ("eq", L(3), L(3))]
+    # container predicates whose folding could look at the container only: ascending / descending / empty / unaligned ranges,
+    # empty and literal-only sequences
+    RA = ("ref", "a")
+    for rng in ((5, 0, -1), (9, -1, -3), (-1, -8, -2), (0, 5, 2), (3, 3, 1), (5, 0, 1), (0, 5, -1), (2, 3, 7)):
+        preds += [("inrange", RA, *rng), ("not", ("inrange", RA, *rng)), ("and", K, ("inrange", ("add", RA, ("ref", "b")), *rng))]
+    preds += [("inseq", RA, ()), ("not", ("inseq", RA, ())), ("inseq", RA, (L(1), L(2))), ("inseq", L(1), (L(1),)), ("or", ("inseq", RA, ()), G)]
     for pr in preds:
         progs += [("sel", X, pr), ("slice", ("sel", X, pr), 0, 1), ("chain", ("sel", X, pr), D0), ("join", X, Z, pr)]
     n = 2 if tier == "quick" else 3
